@@ -506,19 +506,11 @@ func (fv *FV) box(st *State, v Term, from types.Type, to *Sort, pos token.Pos) T
 		st.assume(T(sx("errIs", r.S, fv.ss.StrConst("errclass:"+typeBaseName(from))), SBool))
 		return r
 	case KOpaque:
+		if _, ptr := fv.ss.RefTarget(to); ptr != nil && ptr == v.Sort {
+			return Term{sx("refof_"+to.Name, v.S), to}
+		}
 		// deterministic injection into the opaque sort
-		fn := "box_" + mangle(v.Sort.Name) + "_" + mangle(to.Name)
-		d := "(declare-fun " + fn + " (" + v.Sort.Name + ") " + to.Name + ")"
-		found := false
-		for _, x := range fv.decls {
-			if x == d {
-				found = true
-				break
-			}
-		}
-		if !found {
-			fv.decls = append(fv.decls, d)
-		}
+		fn, _ := fv.ss.BoxFn(v.Sort, to)
 		r := Term{sx(fn, v.S), to}
 		if v.Sort.Kind == KPtr || v.Sort.Kind == KStruct {
 			st.assume(tNot(tEq(r, Term{fv.ss.Zero(to), to})))
@@ -542,11 +534,30 @@ func typeBaseName(t types.Type) string {
 	return t.String()
 }
 
+// coerceRef converts between the boxed representation of a pointer (option T) and the reference
+// representation used inside recursive struct types.
+func (fv *FV) coerceRef(v Term, want *Sort) (Term, bool) {
+	if want.Kind == KOpaque && v.Sort.Kind == KPtr {
+		if _, ptr := fv.ss.RefTarget(want); ptr != nil && ptr == v.Sort {
+			return Term{sx("refof_"+want.Name, v.S), want}, true
+		}
+	}
+	if v.Sort.Kind == KOpaque && want.Kind == KPtr {
+		if _, ptr := fv.ss.RefTarget(v.Sort); ptr != nil && ptr == want {
+			return tIte(tEq(v, Term{fv.ss.Zero(v.Sort), v.Sort}), ptrNil(want), ptrMk(want, Term{sx("deref_"+v.Sort.Name, v.S), want.Elem})), true
+		}
+	}
+	return v, false
+}
+
 // convertTo adapts a value to the sort expected at an assignment / parameter position.
 func (fv *FV) convertTo(st *State, v Term, from types.Type, to types.Type, pos token.Pos) Term {
 	tso := fv.ss.Of(to)
 	if v.Sort == tso {
 		return v
+	}
+	if c, ok := fv.coerceRef(v, tso); ok {
+		return c
 	}
 	if from == nil {
 		fv.abort(pos, "cannot convert sort %s to %s", v.Sort.Name, tso.Name)
@@ -633,7 +644,13 @@ func (fv *FV) evalCompositeLit(st *State, x *ast.CompositeLit) Term {
 				for j, f := range so.Fields {
 					if f.Name == name {
 						v := fv.evalExpr(st, kv.Value)
-						v = fv.convertTo(st, v, fv.info.TypeOf(kv.Value), u.Field(j).Type(), kv.Pos())
+						if v.Sort != f.Sort {
+							if c, ok := fv.coerceRef(v, f.Sort); ok {
+								v = c
+							} else {
+								v = fv.convertTo(st, v, fv.info.TypeOf(kv.Value), u.Field(j).Type(), kv.Pos())
+							}
+						}
 						vals[j] = v.S
 					}
 				}
